@@ -36,12 +36,12 @@ struct World {
     rets: HashMap<i64, RetH>,
     fwds: HashMap<i64, Fwd<i64>>,
     deferrer: Option<Deferrer>,
-    panic_msg: Option<String>,
     during: String,
 }
 
 thread_local! {
     static W: RefCell<World> = RefCell::new(World::default());
+    static PANIC_MSG: RefCell<Option<String>> = const { RefCell::new(None) };
 }
 
 fn w<T>(f: impl FnOnce(&mut World) -> T) -> T {
@@ -101,8 +101,10 @@ struct OwnH {
 }
 impl Drop for OwnH {
     fn drop(&mut self) {
-        ev(format!(r#"{{"e":"owndrop","oid":{},"aid":{}}}"#, self.oid, self.aid));
-        drop(self.own.take());
+        if let Some(own) = self.own.take() {
+            ev(format!(r#"{{"e":"owndrop","oid":{},"aid":{}}}"#, self.oid, self.aid));
+            drop(own);
+        }
     }
 }
 
@@ -306,11 +308,11 @@ impl Drop for VTok {
 struct Node {
     // Field order matters: kept handles are dropped after `vtok`
     vtok: VTok,
+    slab: ActorOwnSlab<Node>,
     aid: i64,
     running: bool,
     kept_owns: Vec<OwnH>,
     kept_rets: Vec<RetH>,
-    slab: ActorOwnSlab<Node>,
 }
 
 impl Node {
@@ -496,12 +498,19 @@ fn exec_op(op: &Value, ctx: &mut Ctx) {
             let id = get_i(item, "id");
             let seed = (id as u8).wrapping_mul(7);
             let via = op.get("via").and_then(|v| v.as_str()).unwrap_or("core");
-            let tok = Tok::new(item);
-            submit_ev("main", item, format!(r#","via":"{}""#, via));
             let deferrer = match (via, ctx.core()) {
                 ("core", Some(_)) => None,
-                _ => Some(w(|w| w.deferrer.clone().expect("no deferrer"))),
+                _ => match w(|w| w.deferrer.clone()) {
+                    Some(d) => Some(d),
+                    None => {
+                        // Stray drop handler of an earlier Stakker's closure
+                        ev(r#"{"e":"nop","why":"no deferrer"}"#.to_string());
+                        return;
+                    }
+                },
             };
+            let tok = Tok::new(item);
+            submit_ev("main", item, format!(r#","via":"{}""#, via));
             if let Some(d) = deferrer {
                 shaped!(shape, seed, |pad| d.defer(move |s| {
                     pad.check(id);
@@ -568,8 +577,8 @@ fn exec_op(op: &Value, ctx: &mut Ctx) {
                 };
                 w(|w| w.timers.insert(tid, key));
                 ev(format!(
-                    r#"{{"e":"tmac","tid":{},"kind":"{}","t":{},"item":{},"upd":{}}}"#,
-                    tid, kind, tj(at), iid, updated
+                    r#"{{"e":"tmac","tid":{},"kind":"{}","t":{},"item":{},"upd":{},"now":{}}}"#,
+                    tid, kind, tj(at), iid, updated, tj(now)
                 ));
             } else {
                 let key = match kind {
@@ -585,8 +594,8 @@ fn exec_op(op: &Value, ctx: &mut Ctx) {
                 };
                 w(|w| w.timers.insert(tid, key));
                 ev(format!(
-                    r#"{{"e":"tadd","tid":{},"kind":"{}","t":{},"item":{}}}"#,
-                    tid, kind, tj(at), iid
+                    r#"{{"e":"tadd","tid":{},"kind":"{}","t":{},"item":{},"now":{}}}"#,
+                    tid, kind, tj(at), iid, tj(now)
                 ));
             }
         }
@@ -601,11 +610,19 @@ fn exec_op(op: &Value, ctx: &mut Ctx) {
                     _ => TKey::Fixed(FixedTimerKey::default()),
                 }
             } else {
-                w(|w| match w.timers.get(&tid).expect("unknown tid") {
-                    TKey::Fixed(k) => TKey::Fixed(*k),
-                    TKey::Max(k) => TKey::Max(*k),
-                    TKey::Min(k) => TKey::Min(*k),
-                })
+                match w(|w| {
+                    w.timers.get(&tid).map(|k| match k {
+                        TKey::Fixed(k) => TKey::Fixed(*k),
+                        TKey::Max(k) => TKey::Max(*k),
+                        TKey::Min(k) => TKey::Min(*k),
+                    })
+                }) {
+                    Some(k) => k,
+                    None => {
+                        ev(format!(r#"{{"e":"nop","why":"unknown tid {}"}}"#, tid));
+                        return;
+                    }
+                }
             };
             let kind = match key {
                 TKey::Fixed(_) => "fixed",
@@ -615,14 +632,15 @@ fn exec_op(op: &Value, ctx: &mut Ctx) {
             match name {
                 "tupd" => {
                     let at = inst(&op["t"]);
+                    let now = core.now();
                     let res = match key {
                         TKey::Max(k) => core.timer_max_upd(k, at),
                         TKey::Min(k) => core.timer_min_upd(k, at),
                         TKey::Fixed(_) => panic!("harness: tupd on fixed timer"),
                     };
                     ev(format!(
-                        r#"{{"e":"tupd","tid":{},"kind":"{}","t":{},"res":{}}}"#,
-                        tid, kind, tj(at), res
+                        r#"{{"e":"tupd","tid":{},"kind":"{}","t":{},"res":{},"now":{}}}"#,
+                        tid, kind, tj(at), res, tj(now)
                     ));
                 }
                 "tdel" => {
@@ -751,40 +769,47 @@ fn exec_op(op: &Value, ctx: &mut Ctx) {
             let prep = op.get("prep").and_then(|v| v.as_bool()).unwrap_or(false);
             let q = op.get("q").and_then(|v| v.as_str()).unwrap_or("main");
             let item = &op["item"];
-            let actor = get_actor(aid).expect("unknown actor");
+            let _ = q;
+            let actor = match get_actor(aid) {
+                Some(a) => a,
+                None => {
+                    ev(format!(r#"{{"e":"nop","why":"unknown actor {}"}}"#, aid));
+                    return;
+                }
+            };
             let tok = Tok::new(item);
-            submit_ev(q, item, format!(r#","aid":{},"prep":{}"#, aid, prep));
-            match (ctx.core(), q, prep) {
-                (None, _, false) => {
+            submit_ev("main", item, format!(r#","aid":{},"prep":{}"#, aid, prep));
+            match (ctx.core(), prep) {
+                (None, false) => {
                     // From a drop handler: no core
                     call!([actor], meth(tok));
                 }
-                (None, _, true) => {
+                (None, true) => {
                     call!([actor], Node::init(aid, tok));
                 }
-                (Some(core), "lazy", false) => lazy!([actor, core], meth(tok)),
-                (Some(core), "idle", false) => idle!([actor, core], meth(tok)),
-                (Some(core), "lazy", true) => lazy!([actor, core], Node::init(aid, tok)),
-                (Some(core), "idle", true) => idle!([actor, core], Node::init(aid, tok)),
-                (Some(core), _, false) => call!([actor, core], meth(tok)),
-                (Some(core), _, true) => call!([actor, core], Node::init(aid, tok)),
+                (Some(core), false) => call!([actor, core], meth(tok)),
+                (Some(core), true) => call!([actor, core], Node::init(aid, tok)),
             }
         }
-        "tcall" => {
-            // Actor call from a fixed timer: {"op":"tcall","tid":T,"t":[..],"aid":A,"item":{..}}
+        "apply" => {
+            // Direct Actor::apply from a closure that has the Stakker: what
+            // lazy!/idle!/after!([actor], method()) do when their turn comes
             let aid = get_i(op, "aid");
-            let tid = get_i(op, "tid");
             let item = &op["item"];
-            let actor = get_actor(aid).expect("unknown actor");
-            let tok = Tok::new(item);
-            let at = inst(&op["t"]);
-            let core = ctx.core().expect("tcall needs core");
-            let key = core.timer_add(at, move |s| actor.apply(s, move |n, cx| n.meth(cx, tok)));
-            w(|w| w.timers.insert(tid, TKey::Fixed(key)));
-            ev(format!(
-                r#"{{"e":"tadd","tid":{},"kind":"fixed","t":{},"item":{},"aid":{}}}"#,
-                tid, tj(at), get_i(item, "id"), aid
-            ));
+            let actor = match get_actor(aid) {
+                Some(a) => a,
+                None => {
+                    ev(format!(r#"{{"e":"nop","why":"unknown actor {}"}}"#, aid));
+                    return;
+                }
+            };
+            if let Ctx::S(s) = ctx {
+                let tok = Tok::new(item);
+                ev(format!(r#"{{"e":"apply","item":{},"aid":{}}}"#, get_i(item, "id"), aid));
+                actor.apply(s, move |n, cx| n.meth(cx, tok));
+            } else {
+                panic!("harness: apply needs stakker");
+            }
         }
         "stop" => match ctx {
             Ctx::M(n, cx) => {
@@ -947,14 +972,21 @@ fn exec_op(op: &Value, ctx: &mut Ctx) {
                         m.unwrap_or(0)
                     ));
                 }),
-                "to" => {
-                    let a = get_actor(aid).expect("unknown actor");
-                    ret_to!([a], retm(rid) as (i64))
+                "to" | "someto" => {
+                    let a = match get_actor(aid) {
+                        Some(a) => a,
+                        None => {
+                            ev(format!(r#"{{"e":"nop","why":"unknown actor {}"}}"#, aid));
+                            return;
+                        }
+                    };
+                    if kind == "to" {
+                        ret_to!([a], retm(rid) as (i64))
+                    } else {
+                        ret_some_to!([a], retsome(rid) as (i64))
+                    }
                 }
-                _ => {
-                    let a = get_actor(aid).expect("unknown actor");
-                    ret_some_to!([a], retsome(rid) as (i64))
-                }
+                _ => panic!("harness: bad ret kind"),
             };
             ev(format!(r#"{{"e":"mkret","rid":{},"kind":"{}","aid":{}}}"#, rid, kind, aid));
             w(|w| w.rets.insert(rid, RetH { rid, ret: Some(ret) }));
@@ -993,7 +1025,13 @@ fn exec_op(op: &Value, ctx: &mut Ctx) {
         "mkfwd" => {
             let fid = get_i(op, "fid");
             let aid = get_i(op, "aid");
-            let a = get_actor(aid).expect("unknown actor");
+            let a = match get_actor(aid) {
+                Some(a) => a,
+                None => {
+                    ev(format!(r#"{{"e":"nop","why":"unknown actor {}"}}"#, aid));
+                    return;
+                }
+            };
             let f = fwd_to!([a], fwdm(fid) as (i64));
             ev(format!(r#"{{"e":"mkfwd","fid":{},"aid":{}}}"#, fid, aid));
             w(|w| w.fwds.insert(fid, f));
@@ -1192,10 +1230,7 @@ fn clear_world() {
     drop(fwds);
     let refs = w(|w| std::mem::take(&mut w.refs));
     drop(refs);
-    w(|w| {
-        w.timers.clear();
-        w.deferrer = None;
-    });
+    w(|w| w.timers.clear());
 }
 
 fn main() {
@@ -1218,9 +1253,11 @@ fn main() {
             .location()
             .map(|l| format!("{}:{}", l.file(), l.line()))
             .unwrap_or_default();
-        let _ = W.try_with(|w| {
-            if let Ok(mut w) = w.try_borrow_mut() {
-                w.panic_msg = Some(format!("{} @ {}", msg, loc));
+        let _ = PANIC_MSG.try_with(|p| {
+            if let Ok(mut p) = p.try_borrow_mut() {
+                if p.is_none() {
+                    *p = Some(format!("{} @ {}", msg, loc));
+                }
             }
         });
     }));
@@ -1253,24 +1290,40 @@ fn main() {
             // End of case: release everything
             ev(r#"{"e":"endcase"}"#.to_string());
             clear_world();
+            let leakcheck = stk.is_some() && case.get("acyclic").and_then(|v| v.as_bool()).unwrap_or(false);
+            if let Some(s) = stk.as_mut() {
+                // All handles are gone: let the resulting terminations run
+                let t = s.now();
+                ev(format!(r#"{{"e":"run","t":{},"idle":false}}"#, tj(t)));
+                let r = s.run(t, false);
+                ev(format!(r#"{{"e":"runend","ret":{},"now":{}}}"#, r, tj(s.now())));
+            }
             if stk.is_some() {
                 ev(r#"{"e":"dropstakker"}"#.to_string());
                 drop(stk.take());
                 ev(r#"{"e":"droppedstakker"}"#.to_string());
             }
             clear_world();
-            ev(r#"{"e":"end"}"#.to_string());
+            let d = w(|w| w.deferrer.take());
+            drop(d);
+            // Closures deferred after the Stakker was dropped are stranded in
+            // a process-wide queue (documented); a throw-away Stakker
+            // releases them so that they do not leak into the next case
+            ev(r#"{"e":"flush"}"#.to_string());
+            drop(Stakker::new(process_base));
+            ev(format!(r#"{{"e":"end","leakcheck":{}}}"#, leakcheck));
         }));
         if res.is_err() {
-            let (msg, during) = w(|w| (w.panic_msg.take().unwrap_or_default(), w.during.clone()));
+            let msg = PANIC_MSG.with(|p| p.borrow_mut().take()).unwrap_or_default();
+            let during = W.with(|w| w.try_borrow().map(|w| w.during.clone()).unwrap_or_default());
             let msg = msg.replace('\\', "/").replace('"', "'");
             ev(format!(
                 r#"{{"e":"panic","during":"{}","msg":"{}","harness":{}}}"#,
                 during,
                 msg,
-                msg.starts_with("harness:")
+                msg.starts_with("harness:") || msg.contains("seqdrv.rs")
             ));
-            ev(r#"{"e":"end"}"#.to_string());
+            ev(r#"{"e":"end","leakcheck":false}"#.to_string());
             flush();
             // State of the runtime (and of its process-wide singletons)
             // is unknown after a panic: restart from the next case
